@@ -41,10 +41,24 @@ ATOMS = {
     'issym': ('is_symlink', None), 'big': ('size > 100', None), 'symeq': ('is_symlink = false', None),
 }
 
+ATOMS.update({
+    # a LIKE / glob pattern and the regular expression it translates to, side by side (letter case matters to one only)
+    'likeA': ("name like 'a%'", None), 'rxA': ("name =~ '^a.*$'", None), 'nrxA': ("name !=~ '^a.*$'", "name =~ '^a.*$'"),
+    'globA': ("name = 'a*'", None),
+})
+
+# the meaning of the atoms whose pattern is computed per entry (their rows cannot be taken on trust from a run in
+# which the first entry met decides): name -> bool
+MEANING = {
+    'dyn': lambda n: len(n) >= 2 and n[-1] in 'xX', 'dynall': lambda n: True, 'dynext': lambda n: True,
+    'dynrx': lambda n: len(n) >= 2 and n.endswith('t'),
+    'likeA': lambda n: n[:1] in 'aA', 'globA': lambda n: n[:1] in 'aA', 'rxA': lambda n: n[:1] == 'a', 'nrxA': lambda n: n[:1] != 'a',
+}
+
 TUPLES = {
     'quick': [('gt', 'like', 'isdir', 'hl'), ('ge', 'glob', 'bare', 'btw'),
               ('eq', 'eeq', 'le', 'like'), ('nlike', 'gt', 'nbtw', 'bare'), ('lt', 'ne', 'rx', 'hl'),
-              ('arith', 'len', 'hlge', 'glob'), ('le', 'nrx', 'ene', 'eq'), ('dyn', 'gt', 'eeqw', 'dynrx'), ('dynall', 'glob', 'dynext', 'lt'),
+              ('arith', 'len', 'hlge', 'glob'), ('le', 'nrx', 'ene', 'eq'), ('likeA', 'nrxA', 'rxA', 'globA'), ('dyn', 'gt', 'eeqw', 'dynrx'), ('dynall', 'glob', 'dynext', 'lt'),
               ('issym', 'big', 'symeq', 'like', 'symlinks')],
 }
 TUPLES['thorough'] = TUPLES['quick'] + [('btw', 'rx', 'hl', 'lt'),
@@ -77,6 +91,8 @@ def the_tree():
     t['a?'] = F(10)
     t['a*'] = F(11)
     t['s20']['c']['big'] = F(500)
+    t['Abc'] = F(7)
+    t['AX'] = F(12)
     t['lbig'] = {'t': 'l', 'to': 's20/big'}
     t['lsmall'] = {'t': 'l', 'to': 's03/x'}
     t['ldang'] = {'t': 'l', 'to': 'nowhere-at-all-this-target-text-is-longer-than-one-hundred-bytes-so-that-the-link-itself-is-big-too-xxxxxxxxxxxxxxx'}
@@ -215,7 +231,7 @@ def groups(tier, seed):
         seen = set()
         pending = []
         idx = 0
-        kmax = KMAX[tier] if not (tier == 'quick' and TUPLES[tier].index(tup) >= 8) else 2
+        kmax = KMAX[tier] if not (tier == 'quick' and TUPLES[tier].index(tup) >= 7) else 2
         for k in range(0, kmax + 1):
             allmax = 2 if tier == 'quick' or TUPLES[tier].index(tup) >= 3 else 3
             modes = ['all'] if k <= allmax else ['seq']
@@ -237,6 +253,8 @@ def groups(tier, seed):
 
 
 def single(case):
+    if 'meaning' in case:
+        return {'atoms': case['atoms'], 'forms': []}
     return {'atoms': case['atoms'], 'forms': [[case['f'], case['style'], case.get('k', 0)]]}
 
 
@@ -265,6 +283,15 @@ def eval_group(env, group, tier):
                 raise core.MachineryError('atom query failed: %r %r' % (argv, o.brief()))
             s = frozenset(o.rows())
             sets.append(universe - s if pos else s)
+            if k in MEANING:
+                want = frozenset(p for p in universe if MEANING[k](p.rsplit('/', 1)[-1]))
+                res = {'case': {'atoms': group['atoms'], 'meaning': k, 'query': argv[0]}, 'layer': 'atom-meaning', 'trans': 1, 'nt': True}
+                if sets[-1] != want:
+                    res.update(status='viol', cls='atom-meaning:' + k, sig=('meaning', k),
+                               detail={'query': argv[0], 'missing': sorted(want - sets[-1])[:8], 'extra': sorted(sets[-1] - want)[:8]})
+                else:
+                    res.update(status='ok', sig=('meaning', k, len(want)))
+                outs.append(res)
         for f, style, k in group['forms']:
             text = render(f, style, atoms)
             o, argv = q(text)
